@@ -1,4 +1,253 @@
-From Coq Require Import List NArith ZArith Bool.
+(* C39: the executable oracle C39_check holds on everything the model answers, and the
+   literals the model uses are those of the source *)
+From Coq Require Import List NArith ZArith Bool Lia ZifyBool ZifyN ZifyNat.
 From K.Model Require Import C39.
+From K.Gen Require C39_consts.
+From K.Proof Require Import C39_hex C39_digest C39_meta C39_bits C39_hs.
 Import ListNotations.
-Lemma placeholder : True. Proof. exact I. Qed.
+Local Open Scope N_scope.
+
+(* ---- literals extracted from the source on every run ---- *)
+Theorem consts_match :
+  C39_consts.digest_algo_name = sha256_str /\
+  C39_consts.digest_split_sep = [colon] /\
+  C39_consts.digest_raw_format = [37; 115; colon; 37; 115] /\        (* "%s:%s" *)
+  C39_consts.piece_status_empty = Z.of_N st_empty /\
+  C39_consts.piece_status_complete = Z.of_N st_complete /\
+  C39_consts.piece_status_dirty = Z.of_N st_dirty.
+Proof. repeat split; reflexivity. Qed.
+
+(* ---- reflexivity of the comparison functions ---- *)
+Lemma dg_eqb_refl : forall d, dg_eqb d d = true.
+Proof. intro d. unfold dg_eqb. rewrite !leqb_refl. reflexivity. Qed.
+Lemma dgs_eqb_refl : forall l, dgs_eqb l l = true.
+Proof. induction l as [|d l IH]; [reflexivity|]. cbn [dgs_eqb]. rewrite dg_eqb_refl, IH. reflexivity. Qed.
+Lemma bs_eqb_refl : forall b, bs_eqb b b = true.
+Proof. intro b. unfold bs_eqb. rewrite N.eqb_refl, leqb_refl. reflexivity. Qed.
+Lemma val_eqb_refl : forall v, val_eqb v v = true.
+Proof.
+  destruct v as [s|z n|b|d|b|[l|]]; cbn [val_eqb].
+  - apply leqb_refl.
+  - rewrite Z.eqb_refl, N.eqb_refl. reflexivity.
+  - destruct b; reflexivity.
+  - apply dg_eqb_refl.
+  - apply bs_eqb_refl.
+  - apply dgs_eqb_refl.
+  - reflexivity.
+Qed.
+Lemma rb_eqb_refl : forall l, rb_eqb l l = true.
+Proof. induction l as [|[k v] l IH]; [reflexivity|]. cbn [rb_eqb]. rewrite leqb_refl, bs_eqb_refl, IH. reflexivity. Qed.
+Lemma hs_eqb_refl : forall h, hs_eqb h h = true.
+Proof. intro h. unfold hs_eqb. rewrite !leqb_refl, dg_eqb_refl, bs_eqb_refl, rb_eqb_refl. reflexivity. Qed.
+
+(* ---- no parser and no printer of the model panics ---- *)
+Lemma lift_ok : forall A (f : A -> val) r v, lift f r = Ok v -> exists a, r = Ok a /\ v = f a.
+Proof. intros A f [a| |] v H; try discriminate. inversion H. eauto. Qed.
+Lemma lift_err : forall A (f : A -> val) r, lift f r = Err -> r = Err.
+Proof. intros A f [a| |] H; try discriminate. reflexivity. Qed.
+Lemma lift_panic : forall A (f : A -> val) r, lift f r = Panic -> r = Panic.
+Proof. intros A f [a| |] H; try discriminate. reflexivity. Qed.
+
+Ltac crush_matches :=
+  repeat match goal with
+  | |- context [match ?x with _ => _ end] => destruct x
+  | |- context [if ?x then _ else _] => destruct x
+  end; try discriminate.
+
+Lemma digest_parse_no_panic : forall s, digest_parse s <> Panic.
+Proof. intro s. unfold digest_parse. crush_matches. Qed.
+Lemma digest_from_hex_no_panic : forall s, digest_from_hex s <> Panic.
+Proof. intro s. unfold digest_from_hex. crush_matches. Qed.
+Lemma digest_json_no_panic : forall s, digest_json_parse s <> Panic.
+Proof. intro s. unfold digest_json_parse. destruct (json_string_doc s); [apply digest_parse_no_panic|discriminate]. Qed.
+Lemma dl_elems_no_panic : forall f s, dl_elems f s <> Panic.
+Proof.
+  induction f as [|f IH]; intro s; [discriminate|]. cbn [dl_elems].
+  destruct s as [|c t]; [discriminate|]. destruct (c =? quote); [|discriminate].
+  destruct (jstr t) as [[raw rest]|]; [|discriminate].
+  destruct (digest_parse raw); try discriminate.
+  destruct (skip_ws rest) as [|k r]; [discriminate|].
+  destruct (k =? 44); [destruct (dl_elems f (skip_ws r)); discriminate|].
+  destruct (k =? 93); [|discriminate]. destruct (all_ws r); discriminate.
+Qed.
+Lemma dl_parse_no_panic : forall s, dl_parse s <> Panic.
+Proof.
+  intro s. unfold dl_parse. destruct (skip_ws s) as [|c t]; [discriminate|].
+  destruct (c =? 91).
+  - destruct (skip_ws t) as [|k r]; [discriminate|]. destruct (k =? 93); [destruct (all_ws r); discriminate|].
+    destruct (dl_elems (length s) (k :: r)); discriminate.
+  - crush_matches.
+Qed.
+Lemma infohash_no_panic : forall s, infohash_parse s <> Panic.
+Proof. intro s. unfold infohash_parse. crush_matches. Qed.
+Lemma peerid_no_panic : forall s, peerid_parse s <> Panic.
+Proof. intro s. unfold peerid_parse. crush_matches. Qed.
+Lemma lat_parse_no_panic : forall s, lat_parse s <> Panic.
+Proof. intro s. unfold lat_parse. crush_matches. Qed.
+Lemma persist_no_panic : forall s, persist_parse s <> Panic.
+Proof. intro s. unfold persist_parse. crush_matches. Qed.
+Lemma bitset_no_panic : forall s, bitset_parse s <> Panic.
+Proof. intro s. unfold bitset_parse. crush_matches. Qed.
+
+Theorem parse_no_panic : forall c s, parse c s <> Panic.
+Proof.
+  intros c s H. destruct c; cbn [parse] in H; try (apply lift_panic in H); try discriminate; revert H.
+  - apply digest_parse_no_panic.
+  - apply digest_from_hex_no_panic.
+  - apply digest_json_no_panic.
+  - apply dl_parse_no_panic.
+  - apply infohash_no_panic.
+  - apply peerid_no_panic.
+  - apply lat_parse_no_panic.
+  - apply persist_no_panic.
+  - apply bitset_no_panic.
+Qed.
+
+Theorem print_no_panic : forall c v, print c v <> Panic.
+Proof.
+  intros c v H. destruct c; destruct v; cbn [print] in H; try discriminate.
+  destruct (lat_print_total sec) as [b [P _]]. congruence.
+Qed.
+
+(* ---- what an accepted text implies, per codec ---- *)
+Theorem parse_ok_facts : forall c s v, forallb is_byte s = true -> parse c s = Ok v ->
+  input_wfb c s = true /\ in_domain c v = true /\ exists p, print c v = Ok p /\ parse c p = Ok v.
+Proof.
+  intros c s v B H. destruct c; cbn [parse] in H.
+  - (* CDigest *) apply lift_ok in H. destruct H as [d [H E]]. subst v.
+    pose proof (digest_parse_wf _ _ H) as [W S]. apply digest_parse_iff in H. destruct H as [T _].
+    cbn [input_wfb in_domain print parse]. repeat split; auto. eexists. split; [reflexivity|].
+    rewrite digest_roundtrip by assumption. reflexivity.
+  - (* CDigestHex *) apply lift_ok in H. destruct H as [d [H E]]. subst v.
+    pose proof (digest_from_hex_wf _ _ H) as [W S]. apply digest_from_hex_iff in H. destruct H as [T _].
+    cbn [input_wfb in_domain print parse]. repeat split; auto. eexists. split; [reflexivity|].
+    rewrite digest_hex_roundtrip by assumption. reflexivity.
+  - (* CDigestJSON *) apply lift_ok in H. destruct H as [d [H E]]. subst v.
+    pose proof (digest_json_accepts_wf_only _ _ H) as W.
+    cbn [input_wfb in_domain print parse]. repeat split; auto. eexists. split; [reflexivity|].
+    rewrite digest_json_roundtrip by assumption. reflexivity.
+  - (* CDigestList *) apply lift_ok in H. destruct H as [l [H E]]. subst v.
+    pose proof (digestlist_accepts_wf_only _ _ H) as W.
+    cbn [input_wfb in_domain print parse]. split; [reflexivity|]. split; [destruct l; auto|].
+    eexists. split; [reflexivity|]. rewrite digestlist_roundtrip by assumption. reflexivity.
+  - (* CInfoHash *) apply lift_ok in H. destruct H as [b [H E]]. subst v.
+    pose proof (infohash_parse_sound _ _ H) as [W _].
+    cbn [input_wfb in_domain print parse]. split; [apply infohash_accepts; eauto|]. split; [exact W|].
+    eexists. split; [reflexivity|]. rewrite infohash_roundtrip by assumption. reflexivity.
+  - (* CPeerID *) apply lift_ok in H. destruct H as [b [H E]]. subst v.
+    pose proof (peerid_parse_sound _ _ H) as [W _].
+    cbn [input_wfb in_domain print parse]. split; [apply peerid_accepts; eauto|]. split; [exact W|].
+    eexists. split; [reflexivity|]. rewrite peerid_roundtrip by assumption. reflexivity.
+  - (* CStatus *) inversion H; subst v. cbn [input_wfb in_domain print parse].
+    split; [reflexivity|]. split; [apply status_parse_range|]. eexists. split; [reflexivity|].
+    rewrite status_parse_print. reflexivity.
+  - (* CLat *) apply lift_ok in H. destruct H as [z [H E]]. subst v.
+    pose proof (lat_parse_range _ _ H) as R. destruct (lat_roundtrip z R) as [p [P [_ Q]]].
+    cbn [input_wfb in_domain print parse]. split; [apply lat_accepts_wellformed_only; eauto|].
+    split; [rewrite R; reflexivity|]. exists p. split; [exact P|]. rewrite Q. reflexivity.
+  - (* CPersist *) apply lift_ok in H. destruct H as [b [H E]]. subst v.
+    cbn [input_wfb in_domain print parse]. split.
+    + apply persist_accepts in H. apply mem_str_In in H. destruct b; rewrite H; [reflexivity|apply orb_true_r].
+    + split; [reflexivity|]. eexists. split; [reflexivity|]. rewrite persist_roundtrip. reflexivity.
+  - (* CBits *) apply lift_ok in H. destruct H as [b [H E]]. subst v.
+    pose proof (bitset_parse_sound _ _ B H) as [W _].
+    cbn [in_domain print parse]. split; [apply bitset_accepts; eauto|]. split; [exact W|].
+    eexists. split; [reflexivity|]. rewrite bitset_roundtrip by assumption. reflexivity.
+Qed.
+
+(* ---- a printed form (and its documented variants) is never rejected ---- *)
+Theorem parse_err_facts : forall c s, parse c s = Err -> must_accept c s = false.
+Proof.
+  intros c s H. destruct (must_accept c s) eqn:M; [exfalso|reflexivity].
+  destruct c; cbn [parse must_accept input_wfb] in *; try discriminate; try (apply lift_err in H).
+  - apply digest_accepts_wellformed_only in M. destruct M as [d M]. congruence.
+  - assert (X : digest_from_hex s = Ok (mkd sha256_str s (sha256_str ++ colon :: s)))
+      by (apply digest_from_hex_iff; auto). congruence.
+  - apply infohash_accepts in M. destruct M as [d M]. congruence.
+  - apply peerid_accepts in M. destruct M as [d M]. congruence.
+  - apply lat_accepts_wellformed_only in M. destruct M as [d M]. congruence.
+  - unfold persist_parse in H. apply orb_true_iff in M.
+    destruct (mem_str s true_spellings); [discriminate|]. destruct (mem_str s false_spellings); [discriminate|].
+    destruct M; discriminate.
+  - apply (bitset_accepts s) in M. destruct M as [d M]. congruence.
+Qed.
+
+(* ---- every value of the domain prints, and the text parses back to it ---- *)
+Theorem print_ok_facts : forall c v, in_domain c v = true ->
+  exists p, print c v = Ok p /\ parse c p = Ok (granular c v).
+Proof.
+  intros c v D. destruct c; destruct v as [s|z n|b|d|b|l]; cbn [in_domain] in D; try discriminate;
+    cbn [print parse granular].
+  - eexists. split; [reflexivity|]. rewrite digest_roundtrip by assumption. reflexivity.
+  - eexists. split; [reflexivity|]. rewrite digest_hex_roundtrip by assumption. reflexivity.
+  - eexists. split; [reflexivity|]. rewrite digest_json_roundtrip by assumption. reflexivity.
+  - eexists. split; [reflexivity|]. rewrite digestlist_roundtrip; [reflexivity|]. destruct l; auto.
+  - eexists. split; [reflexivity|]. rewrite infohash_roundtrip by assumption. reflexivity.
+  - eexists. split; [reflexivity|]. rewrite peerid_roundtrip by assumption. reflexivity.
+  - eexists. split; [reflexivity|]. rewrite status_roundtrip by assumption. reflexivity.
+  - apply andb_true_iff in D. destruct D as [R _]. destruct (lat_roundtrip z R) as [p [P [_ Q]]].
+    exists p. split; [exact P|]. rewrite Q. reflexivity.
+  - eexists. split; [reflexivity|]. rewrite persist_roundtrip. reflexivity.
+  - eexists. split; [reflexivity|]. rewrite bitset_roundtrip by assumption. reflexivity.
+Qed.
+
+(* ---- the oracle on the model's own answers ---- *)
+Theorem check_parse_sound : forall c s, forallb is_byte s = true ->
+  let '(r1, r2, r3) := parse_chain c s in check_parse c s r1 r2 r3 = true.
+Proof.
+  intros c s B. unfold parse_chain, check_parse.
+  destruct (parse c s) as [v| |] eqn:P.
+  - destruct (parse_ok_facts c s v B P) as (W & D & p & Pr & Re).
+    rewrite Pr, Re, W, D. cbn [res_eqb andb]. apply val_eqb_refl.
+  - rewrite (parse_err_facts _ _ P). reflexivity.
+  - exfalso. eapply parse_no_panic; eauto.
+Qed.
+
+Theorem check_print_sound : forall c v,
+  let '(r1, r2) := print_chain c v in check_print c v r1 r2 = true.
+Proof.
+  intros c v. unfold print_chain, check_print.
+  destruct (in_domain c v) eqn:D.
+  - destruct (print_ok_facts c v D) as (p & Pr & Re). rewrite Pr, Re. cbn [res_eqb]. apply val_eqb_refl.
+  - destruct (print c v) eqn:P; try reflexivity. exfalso. eapply print_no_panic; eauto.
+Qed.
+
+Theorem check_hs_print_sound : forall h,
+  let '(m, r2) := hs_print_chain h in check_hs_print h m r2 = true.
+Proof.
+  intro h. unfold hs_print_chain, check_hs_print.
+  destruct (hs_wfb h && nodup_keys (h_rb h)) eqn:W; [|reflexivity].
+  apply andb_true_iff in W. destruct W as [W _]. rewrite hs_roundtrip by assumption.
+  cbn [res_eqb]. apply hs_eqb_refl.
+Qed.
+
+Lemma hs_parse_no_panic : forall isb body, hs_parse isb body <> Panic.
+Proof. intros isb body. unfold hs_parse. crush_matches. Qed.
+
+Lemma body_bytes_msg : forall m, body_bytes (Some m) = msg_bytes m.
+Proof. reflexivity. Qed.
+
+Theorem check_hs_parse_sound : forall isb body, body_bytes body = true ->
+  let '(r1, r2, r3) := hs_parse_chain isb body in check_hs_parse isb body r1 r2 r3 = true.
+Proof.
+  intros isb body B. unfold hs_parse_chain, check_hs_parse.
+  destruct (hs_parse isb body) as [h| |] eqn:P.
+  - destruct (proj1 (hs_accepts isb body) (ex_intro _ h P)) as [Ei [m [Eb W]]]. subst isb body.
+    rewrite body_bytes_msg in B. pose proof (hs_parse_sound _ _ _ B P) as Wh.
+    rewrite W, Wh, (hs_roundtrip _ Wh). cbn [andb res_eqb]. rewrite hs_eqb_refl.
+    destruct (nodup_keys (h_rb h)); reflexivity.
+  - destruct (isb && match body with Some m => hmsg_text_wfb m | None => false end) eqn:A; [exfalso|reflexivity].
+    apply andb_true_iff in A. destruct A as [Ei A]. destruct body as [m|]; [|discriminate].
+    destruct (proj2 (hs_accepts isb (Some m))) as [h Hh]; [eauto|]. congruence.
+  - exfalso. eapply hs_parse_no_panic; eauto.
+Qed.
+
+(* the executable form of the property holds on every case as the model answers it *)
+Theorem check_sound : forall c, case_bytes c = true -> C39_check (model_case c) = true.
+Proof.
+  intros [cd inp o1 o2 o3 | cd v o1 o2 | h o1 o2 | isb body o1 o2 o3] B; cbn [model_case case_bytes] in *.
+  - pose proof (check_parse_sound cd inp B) as S. destruct (parse_chain cd inp) as [[r1 r2] r3]. exact S.
+  - pose proof (check_print_sound cd v) as S. destruct (print_chain cd v) as [r1 r2]. exact S.
+  - pose proof (check_hs_print_sound h) as S. destruct (hs_print_chain h) as [m r2]. exact S.
+  - pose proof (check_hs_parse_sound isb body B) as S. destruct (hs_parse_chain isb body) as [[r1 r2] r3]. exact S.
+Qed.
